@@ -231,11 +231,11 @@ def run_property(prop, tier, only, nproc, timeout, write_evidence, verbose):
     for rec, fn in violations:
         print('  %s %s: %s  [%s]' % (rec['lemma'], json.dumps(rec.get('cfg', {})), rec['msg'], str(rec.get('replay_detail'))[:200]))
         print('VIOLATION property=%s replay=%s' % (prop, fn))
+    for l in inconclusive:
+        print('INCONCLUSIVE ' + l[:1500])
     if violations:
         return 1
     if inconclusive:
-        for l in inconclusive:
-            print('INCONCLUSIVE ' + l)
         return 2
     return 0
 
